@@ -472,10 +472,15 @@ func (g *gen) contractCallGeneric(instr ssa.Instruction, con *Contract, sig *typ
 				return "true"
 			}
 			conds := []string{app("<=", r, preTop)}
+			strong := false
 			for _, m := range mods {
 				if m.heap == name {
 					conds = append(conds, sNot(m.member(r)))
+					strong = true
 				}
+			}
+			if !strong {
+				return "weak"
 			}
 			return sAnd(conds...)
 		}, true)
@@ -733,13 +738,13 @@ func (g *gen) frameUnknownCall(instr ssa.Instruction, name string, st *state) {
 
 // summaryCall: the callee has an inferred summary "writes no pre-existing document-heap object".
 func (g *gen) summaryCall(instr ssa.Instruction, callee *ssa.Function, st *state) {
-	preTop := st.top
+	_ = st.top
 	g.newEpoch(st, func(name, r string) string {
 		if g.isDocHeap(name) || g.P.extraFrameHeap[name] {
 			if r == "" {
 				return "true"
 			}
-			return app("<=", r, preTop)
+			return "weak"
 		}
 		return "false"
 	}, true)
